@@ -1,4 +1,6 @@
 import DinoProofs.Lemmas.Implicit
+import DinoProofs.Properties.C13
+import Dino.Imex
 import Mathlib.Algebra.Order.Field.Basic
 import Mathlib.Tactic.Positivity
 import Mathlib.Tactic.LinearCombination
@@ -274,7 +276,8 @@ theorem inverseBlockwise_resolvent (m divInv tpInv : List (List K)) (gop hopNeg 
 
 
 /-! ## T3.5 witnesses: the repaired cumulative-sum `H` agrees with the dense one on an uneven
- 3-layer column where the code before the repair did not (exact rational arithmetic) -/
+ 3-layer column where the code before the repair did not (exact rational arithmetic).
+ The general statement (every layer count) is `tempImplicitSparse_eq_dense` below. -/
 
 section witness
 def wDs : List Rat := [1 / 10, 2 / 5, 1 / 2]
@@ -298,6 +301,475 @@ theorem sparseOld_eq_dense_equidistant_witness :
   decide +kernel
 end witness
 
+/-! ## T3.5 for every layer count: cumulative-sum `H` = dense `H` -/
+
+section sparse
+variable (ds T al : List K) (kappa : K)
+
+/-- the coefficient `M[r,s]` in `H = M·diag(Δσ)`: everything in `hEntry` but the trailing `Δσ[s]` -/
+def hM (r s : Nat) : K :=
+  kappa * T.getD r 0 *
+      (tril r s * al.getD r 0 + (if r = 0 then 0 else tril (r - 1) s * al.getD (r - 1) 0)) / ds.getD r 0
+    - hK ds T r s - (if r = 0 then 0 else hK ds T (r - 1) s)
+
+theorem hEntry_eq_hM_mul (r s : Nat) :
+    hEntry ds T al kappa r s = hM ds T al kappa r s * ds.getD s 0 := rfl
+
+/-- `M` is constant along a row left of the diagonal … -/
+theorem hM_left (r s : Nat) (h : s < r) : hM ds T al kappa r s = hM ds T al kappa r 0 := by
+  have h0 : r ≠ 0 := by omega
+  have h1 : s ≤ r := by omega
+  have h2 : s ≤ r - 1 := by omega
+  simp [hM, hK, tril, h0, h1, h2]
+
+/-- … and right of the diagonal -/
+theorem hM_right (r s s' : Nat) (h : r < s) (h' : r < s') :
+    hM ds T al kappa r s = hM ds T al kappa r s' := by
+  have h1 : ¬ s ≤ r := by omega
+  have h2 : ¬ s ≤ r - 1 := by omega
+  have h3 : ¬ s' ≤ r := by omega
+  have h4 : ¬ s' ≤ r - 1 := by omega
+  simp [hM, hK, tril, h1, h2, h3, h4]
+
+/-- the repaired cumulative-sum form with the guard resolved -/
+theorem tempImplicitSparse_eq_sparseCore (nz : K → Bool) (hnz : ∀ v, nz v = true ↔ v ≠ 0)
+    (e : Nat → Nat → K) (d : List K) (hd : d.length = ds.length) :
+    tempImplicitSparse nz ds (mkMat ds.length e) d
+      = sparseCore
+          ((0 : K) :: (colOf (mkMat ds.length fun r s => -e r s / ds.getD s 0) 0).tail)
+          (diagOf (mkMat ds.length fun r s => -e r s))
+          ((colOf (mkMat ds.length fun r s => -e r s / ds.getD s 0) (ds.length - 1)).dropLast ++ [0])
+          (mulv ds d) d := by
+  unfold tempImplicitSparse
+  simp only [negMat_mkMat, scaled_mkMat]
+  apply guard_irrelevant nz hnz
+  · simp [addv, mulv, subv, colOf, hd]
+  · simp [addv, mulv, subv, colOf, hd]
+
+/-- **T3.5, every layer count.**  For every thickness list without zero entries, every reference
+ profile, ratios, `κ` and divergence column, `get_temperature_implicit(method='sparse')` (repaired)
+ equals `get_temperature_implicit(method='dense')`.  `nz` is any correct test `· ≠ 0`.  (No
+ hypothesis on the lengths of `T`, `al` is needed.) -/
+theorem tempImplicitSparse_eq_dense (nz : K → Bool) (hnz : ∀ v, nz v = true ↔ v ≠ 0)
+    (d : List K) (hd : d.length = ds.length) (hds : ∀ v ∈ ds, v ≠ 0) :
+    tempImplicitSparse nz ds (hMatrix ds T al kappa) d
+      = tempImplicitDense (hMatrix ds T al kappa) d := by
+  rw [hMatrix_eq_mkMat, tempImplicitSparse_eq_sparseCore ds nz hnz _ d hd]
+  unfold tempImplicitDense
+  rw [negMat_mkMat]
+  rcases Nat.eq_zero_or_pos ds.length with h0 | hpos
+  · have hds0 : ds = [] := List.length_eq_zero_iff.1 h0
+    have hd0 : d = [] := List.length_eq_zero_iff.1 (by omega)
+    subst hds0 hd0
+    simp [sparseCore, mulv, addv, subv, cumsum, cumsumFrom, matvec, mkMat]
+  have hne : ∀ s (hs : s < ds.length), ds[s] ≠ 0 := fun s hs => hds _ (List.getElem_mem _)
+  rw [colOf_mkMat _ _ 0 hpos, colOf_mkMat _ _ (ds.length - 1) (by omega), diagOf_mkMat]
+  refine sparseCore_eq_matvec ds.length _ _ _ _ _ _ d (by simp; omega) (by simp)
+    (by simp; omega) (by simp [mulv, hd]) hd hd ?_ ?_ ?_
+  · -- left of the diagonal
+    intro r s hsr hr
+    rw [cons_tail_getElem _ _ _ _ (by simpa using hr), if_neg (by omega)]
+    simp only [List.getElem_map, List.getElem_range, mulv, List.getElem_zipWith]
+    have e1 : ds.getD 0 0 = ds[0] := getD_eq _ _ _ hpos
+    have e2 : ds.getD s 0 = ds[s] := getD_eq _ _ _ (by omega)
+    simp only [hEntry_eq_hM_mul, hM_left ds T al kappa r s hsr, e1, e2]
+    have := hne 0 hpos
+    field_simp
+  · -- the diagonal
+    intro r hr
+    simp
+  · -- right of the diagonal
+    intro r s hrs hs
+    rw [dropLast_append_getElem _ _ _ _ (by simp; omega), if_neg (by simp; omega)]
+    simp only [List.getElem_map, List.getElem_range, mulv, List.getElem_zipWith]
+    have e1 : ds.getD (ds.length - 1) 0 = ds[ds.length - 1] := getD_eq _ _ _ (by omega)
+    have e2 : ds.getD s 0 = ds[s] := getD_eq _ _ _ hs
+    simp only [hEntry_eq_hM_mul, hM_right ds T al kappa r s (ds.length - 1) hrs (by omega), e1, e2]
+    have := hne (ds.length - 1) (by omega)
+    field_simp
+
+/-- the same with the decidable test written out, as the driver instantiates it -/
+theorem tempImplicitSparse_eq_dense_decide [DecidableEq K]
+    (d : List K) (hd : d.length = ds.length) (hds : ∀ v ∈ ds, v ≠ 0) :
+    tempImplicitSparse (fun v => decide (v ≠ 0)) ds (hMatrix ds T al kappa) d
+      = tempImplicitDense (hMatrix ds T al kappa) d :=
+  tempImplicitSparse_eq_dense ds T al kappa _ (by simp) d hd hds
+
+/-- the pre-repair cumulative-sum form with the guard resolved -/
+theorem tempImplicitSparseOld_eq_sparseCore (nz : K → Bool) (hnz : ∀ v, nz v = true ↔ v ≠ 0)
+    (n : Nat) (e : Nat → Nat → K) (d : List K) (hd : d.length = n) :
+    tempImplicitSparseOld nz (mkMat n e) d
+      = sparseCore
+          ((0 : K) :: (colOf (mkMat n fun r s => -e r s) 0).tail)
+          (diagOf (mkMat n fun r s => -e r s))
+          ((colOf (mkMat n fun r s => -e r s) (n - 1)).dropLast ++ [0]) d d := by
+  unfold tempImplicitSparseOld
+  simp only [negMat_mkMat, mkMat_length]
+  apply guard_irrelevant nz hnz
+  · simp [addv, mulv, subv, colOf, hd]
+  · simp [addv, mulv, subv, colOf, hd]
+
+/-- **The pre-repair code was right exactly on the tested configurations**: when all layers have
+ the same thickness (any value, even `0`), the old cumulative-sum form equals the dense product,
+ for every layer count, reference profile, ratios, `κ` and divergence column.
+ (`sparseOld_ne_dense` shows the hypothesis cannot be dropped.) -/
+theorem sparseOld_eq_dense_of_equidistant (nz : K → Bool) (hnz : ∀ v, nz v = true ↔ v ≠ 0)
+    (c : K) (hc : ∀ v ∈ ds, v = c) (d : List K) (hd : d.length = ds.length) :
+    tempImplicitSparseOld nz (hMatrix ds T al kappa) d
+      = tempImplicitDense (hMatrix ds T al kappa) d := by
+  rw [hMatrix_eq_mkMat, tempImplicitSparseOld_eq_sparseCore nz hnz _ _ d hd]
+  unfold tempImplicitDense
+  rw [negMat_mkMat]
+  rcases Nat.eq_zero_or_pos ds.length with h0 | hpos
+  · have hds0 : ds = [] := List.length_eq_zero_iff.1 h0
+    have hd0 : d = [] := List.length_eq_zero_iff.1 (by omega)
+    subst hds0 hd0
+    simp [sparseCore, mulv, addv, subv, cumsum, cumsumFrom, matvec, mkMat]
+  have hcs : ∀ s (_ : s < ds.length), ds.getD s 0 = c := fun s hs => by
+    rw [getD_eq _ _ _ hs]; exact hc _ (List.getElem_mem _)
+  rw [colOf_mkMat _ _ 0 hpos, colOf_mkMat _ _ (ds.length - 1) (by omega), diagOf_mkMat]
+  refine sparseCore_eq_matvec ds.length _ _ _ _ _ _ d (by simp; omega) (by simp)
+    (by simp; omega) hd hd hd ?_ ?_ ?_
+  · intro r s hsr hr
+    rw [cons_tail_getElem _ _ _ _ (by simpa using hr), if_neg (by omega)]
+    simp only [List.getElem_map, List.getElem_range]
+    rw [hEntry_eq_hM_mul, hEntry_eq_hM_mul, hM_left ds T al kappa r s hsr, hcs 0 hpos,
+      hcs s (by omega)]
+  · intro r hr
+    simp
+  · intro r s hrs hs
+    rw [dropLast_append_getElem _ _ _ _ (by simp; omega), if_neg (by simp; omega)]
+    simp only [List.getElem_map, List.getElem_range]
+    rw [hEntry_eq_hM_mul, hEntry_eq_hM_mul,
+      hM_right ds T al kappa r s (ds.length - 1) hrs (by omega), hcs _ hs,
+      hcs (ds.length - 1) (by omega)]
+
+end sparse
+
+/-! ## the resolvent theorems with the cumulative-sum vertical products, every layer count -/
+
+section sparseResolvent
+
+/-- `implicit_terms` applies the vertical operators only to the column's own `t` and `d` -/
+theorem implicitTerms_congr (gop gop' hop hop' : List K → List K)
+    (hg : gop' x.t = gop x.t) (hh : hop' x.d = hop x.d) :
+    implicitTerms lam R ds T gop' hop' x = implicitTerms lam R ds T gop hop x := by
+  simp only [implicitTerms, hg, hh]
+
+/-- the resolvent theorem for any pair of vertical operators that agree with the dense products
+ on the column at hand -/
+theorem primitive_resolvent_of_agree (hs : Shaped n ds T g h x) (minv : List (List K))
+    (hm : minv.length = 2 * n + 1) (hrow : ∀ r ∈ minv, r.length = 2 * n + 1)
+    (hinv : ∀ v : List K, v.length = 2 * n + 1 →
+      matvec minv (matvec (implicitMatrix eta lam R ds T g h) v) = v)
+    (gop hop : List K → List K) (hg : gop x.t = matvec g x.t)
+    (hh : hop x.d = tempImplicitDense h x.d) :
+    let y := oneMinus eta (implicitTerms lam R ds T gop hop) x
+    inverseStacked minv y = x ∧ inverseSplit minv y = x := by
+  intro y
+  have hy : y = oneMinus eta (implicitTerms lam R ds T (matvec g) (tempImplicitDense h)) x := by
+    simp only [y, oneMinus, implicitTerms, hg, hh]
+  rw [hy]
+  exact primitive_resolvent n eta lam R ds T g h x hs minv hm hrow hinv
+
+/-- **Resolvent, cumulative-sum `H`** (`vertical_matmul_method='sparse'` for the temperature
+ operator, any geopotential matrix): for every layer count and every level set without a zero
+ thickness, `implicit_inverse(x - η·implicit_terms(x)) = x` for `split` and `stacked`. -/
+theorem primitive_resolvent_sparseH (al : List K) (kappa : K) (nz : K → Bool)
+    (hnz : ∀ v, nz v = true ↔ v ≠ 0)
+    (hs : Shaped n ds T g (hMatrix ds T al kappa) x) (hds : ∀ v ∈ ds, v ≠ 0)
+    (minv : List (List K))
+    (hm : minv.length = 2 * n + 1) (hrow : ∀ r ∈ minv, r.length = 2 * n + 1)
+    (hinv : ∀ v : List K, v.length = 2 * n + 1 →
+      matvec minv (matvec (implicitMatrix eta lam R ds T g (hMatrix ds T al kappa)) v) = v) :
+    let y := oneMinus eta (implicitTerms lam R ds T (matvec g)
+      (tempImplicitSparse nz ds (hMatrix ds T al kappa))) x
+    inverseStacked minv y = x ∧ inverseSplit minv y = x :=
+  primitive_resolvent_of_agree n eta lam R ds T g _ x hs minv hm hrow hinv _ _ rfl
+    (tempImplicitSparse_eq_dense ds T al kappa nz hnz x.d (by rw [hs.ld, hs.lds]) hds)
+
+omit n eta g h in
+/-- **`implicit_terms` does not depend on `vertical_matmul_method`**: cumulative-sum (`sparse`) and
+ `dense` products give the same implicit tendency, for every layer count, every level set without
+ a zero thickness, every reference profile and every column state of matching shape. -/
+theorem implicitTerms_sparse_eq_dense [NeZero ((1 : K) + 1)] (lc : List K) (kappa : K)
+    (nz : K → Bool) (hnz : ∀ v, nz v = true ↔ v ≠ 0)
+    (hlc : lc.length = x.t.length) (hld : x.d.length = ds.length) (hds : ∀ v ∈ ds, v ≠ 0) :
+    implicitTerms lam R ds T (geopotentialDiffSparse R (sigmaRatios lc))
+        (tempImplicitSparse nz ds (hMatrix ds T (sigmaRatios lc) kappa)) x
+      = implicitTerms lam R ds T (geopotentialDiffDense R (sigmaRatios lc))
+        (tempImplicitDense (hMatrix ds T (sigmaRatios lc) kappa)) x :=
+  implicitTerms_congr lam R ds T x _ _ _ _
+    (Dino.C13.geopotentialDiff_dense_eq_sparse R lc x.t hlc).symm
+    (tempImplicitSparse_eq_dense ds T _ kappa nz hnz x.d hld hds)
+
+omit g h in
+/-- **Resolvent, both cumulative-sum operators** (`vertical_matmul_method='sparse'`): with
+ `α = sigmaRatios (log σ-centres)`, `G = geopotentialWeights R α`, `H = hMatrix Δσ T α κ`, the
+ implicit terms computed with the cumulative-sum forms of *both* `G` and `H` are inverted exactly
+ by any left inverse of the block matrix — every layer count `n`, every level set without a zero
+ thickness, every reference profile, every `η`, `λ`, `R`, `κ`, every column state. -/
+theorem primitive_resolvent_sparse [NeZero ((1 : K) + 1)] (lc : List K) (kappa : K)
+    (nz : K → Bool) (hnz : ∀ v, nz v = true ↔ v ≠ 0)
+    (hlds : ds.length = n) (hlT : T.length = n) (hlc : lc.length = n)
+    (hld : x.d.length = n) (hlt : x.t.length = n) (hds : ∀ v ∈ ds, v ≠ 0)
+    (minv : List (List K))
+    (hm : minv.length = 2 * n + 1) (hrow : ∀ r ∈ minv, r.length = 2 * n + 1)
+    (hinv : ∀ v : List K, v.length = 2 * n + 1 →
+      matvec minv (matvec (implicitMatrix eta lam R ds T (geopotentialWeights R (sigmaRatios lc))
+        (hMatrix ds T (sigmaRatios lc) kappa)) v) = v) :
+    let y := oneMinus eta (implicitTerms lam R ds T (geopotentialDiffSparse R (sigmaRatios lc))
+      (tempImplicitSparse nz ds (hMatrix ds T (sigmaRatios lc) kappa))) x
+    inverseStacked minv y = x ∧ inverseSplit minv y = x := by
+  have hs : Shaped n ds T (geopotentialWeights R (sigmaRatios lc))
+      (hMatrix ds T (sigmaRatios lc) kappa) x :=
+    ⟨hlds, hlT, by simp [hlc], by simp [hlds],
+      fun r hr => by rw [geopotentialWeights_row_length R _ r hr, sigmaRatios_length, hlc],
+      fun r hr => by rw [hMatrix_row_length ds T _ kappa r hr, hlds], hld, hlt⟩
+  exact primitive_resolvent_of_agree n eta lam R ds T _ _ x hs minv hm hrow hinv _ _
+    (Dino.C13.geopotentialDiff_dense_eq_sparse R lc x.t (by omega)).symm
+    (tempImplicitSparse_eq_dense ds T _ kappa nz hnz x.d (by omega) hds)
+
+omit n R ds T g h x in
+/-- the block-wise strategy applies `gop` only to the state's `t` and `hopNeg` only to its `d` -/
+theorem inverseBlockwise_congr (m divInv tpInv : List (List K))
+    (gop gop' hopNeg hopNeg' : List K → List K) (y : Col K)
+    (hg : gop' y.t = gop y.t) (hh : hopNeg' y.d = hopNeg y.d) :
+    inverseBlockwise eta lam m divInv tpInv gop' hopNeg' y
+      = inverseBlockwise eta lam m divInv tpInv gop hopNeg y := by
+  simp only [inverseBlockwise, hg, hh]
+
+omit ds T g h R in
+/-- block-wise resolvent for any operators that agree, on columns of length `n`, with a pair
+ satisfying the hypotheses of `inverseBlockwise_resolvent` -/
+theorem inverseBlockwise_resolvent_of_agree (m divInv tpInv : List (List K))
+    (gop hopNeg gop' hopNeg' : List K → List K)
+    (hgg : ∀ t, t.length = n → gop' t = gop t) (hhh : ∀ d, d.length = n → hopNeg' d = hopNeg d)
+    (hd : x.d.length = n) (ht : x.t.length = n)
+    (hgl : ∀ t p, (gAct eta lam m gop n t p).length = n)
+    (hhl : ∀ d, (hActT eta hopNeg d).length = n)
+    (hGadd : ∀ t1 t2 p1 p2, t1.length = n → t2.length = n →
+      gAct eta lam m gop n (addv t1 t2) (p1 + p2)
+        = addv (gAct eta lam m gop n t1 p1) (gAct eta lam m gop n t2 p2))
+    (hHTadd : ∀ d1 d2, d1.length = n → d2.length = n →
+      hActT eta hopNeg (addv d1 d2) = addv (hActT eta hopNeg d1) (hActT eta hopNeg d2))
+    (hHPadd : ∀ d1 d2, d1.length = n → d2.length = n →
+      hActP m n (addv d1 d2) = hActP m n d1 + hActP m n d2)
+    (hA : ∀ d, d.length = n →
+      matvec divInv (subv d (gAct eta lam m gop n (hActT eta hopNeg d) (hActP m n d))) = d)
+    (hB : ∀ t p, t.length = n →
+      tpApply n tpInv (subv t (hActT eta hopNeg (gAct eta lam m gop n t p)))
+        (p - hActP m n (gAct eta lam m gop n t p)) = (t, p)) :
+    inverseBlockwise eta lam m divInv tpInv gop' hopNeg'
+        ⟨addv x.d (gAct eta lam m gop n x.t x.p), addv x.t (hActT eta hopNeg x.d), x.p + hActP m n x.d⟩
+      = x := by
+  rw [inverseBlockwise_congr eta lam m divInv tpInv gop gop' hopNeg hopNeg' _
+    (hgg _ (by simp [addv, ht, hhl])) (hhh _ (by simp [addv, hd, hgl]))]
+  exact inverseBlockwise_resolvent n eta lam x m divInv tpInv gop hopNeg hd ht hgl hhl hGadd hHTadd
+    hHPadd hA hB
+
+omit n eta lam R g h x in
+/-- the two `h·d` products the block-wise strategy may use agree on every column -/
+theorem hopNeg_sparse_eq_dense (al : List K) (kappa : K) (nz : K → Bool)
+    (hnz : ∀ v, nz v = true ↔ v ≠ 0) (hds : ∀ v ∈ ds, v ≠ 0) (d : List K)
+    (hd : d.length = ds.length) :
+    (tempImplicitSparse nz ds (hMatrix ds T al kappa) d).map (fun a => -a)
+      = (tempImplicitDense (hMatrix ds T al kappa) d).map (fun a => -a) := by
+  rw [tempImplicitSparse_eq_dense ds T al kappa nz hnz d hd hds]
+
+omit g h R in
+/-- **Block-wise resolvent with the cumulative-sum `h·d` product** (what the code runs with
+ `vertical_matmul_method='sparse'`, the default under vertical sharding): under the hypotheses of
+ `inverseBlockwise_resolvent` for the dense product, the block-wise strategy using
+ `-get_temperature_implicit(method='sparse')` returns `x`, for every layer count and every level
+ set without a zero thickness. -/
+theorem inverseBlockwise_resolvent_sparseH (al : List K) (kappa : K) (nz : K → Bool)
+    (hnz : ∀ v, nz v = true ↔ v ≠ 0) (hn : ds.length = n) (hds : ∀ v ∈ ds, v ≠ 0)
+    (m divInv tpInv : List (List K)) (gop : List K → List K)
+    (hd : x.d.length = n) (ht : x.t.length = n) :
+    let hopNeg := fun v => (tempImplicitDense (hMatrix ds T al kappa) v).map (fun a => -a)
+    let hopNeg' := fun v => (tempImplicitSparse nz ds (hMatrix ds T al kappa) v).map (fun a => -a)
+    (∀ t p, (gAct eta lam m gop n t p).length = n) →
+    (∀ d, (hActT eta hopNeg d).length = n) →
+    (∀ t1 t2 p1 p2, t1.length = n → t2.length = n →
+      gAct eta lam m gop n (addv t1 t2) (p1 + p2)
+        = addv (gAct eta lam m gop n t1 p1) (gAct eta lam m gop n t2 p2)) →
+    (∀ d1 d2, d1.length = n → d2.length = n →
+      hActT eta hopNeg (addv d1 d2) = addv (hActT eta hopNeg d1) (hActT eta hopNeg d2)) →
+    (∀ d1 d2, d1.length = n → d2.length = n →
+      hActP m n (addv d1 d2) = hActP m n d1 + hActP m n d2) →
+    (∀ d, d.length = n →
+      matvec divInv (subv d (gAct eta lam m gop n (hActT eta hopNeg d) (hActP m n d))) = d) →
+    (∀ t p, t.length = n →
+      tpApply n tpInv (subv t (hActT eta hopNeg (gAct eta lam m gop n t p)))
+        (p - hActP m n (gAct eta lam m gop n t p)) = (t, p)) →
+    inverseBlockwise eta lam m divInv tpInv gop hopNeg'
+        ⟨addv x.d (gAct eta lam m gop n x.t x.p), addv x.t (hActT eta hopNeg x.d), x.p + hActP m n x.d⟩
+      = x := by
+  intro hopNeg hopNeg' hgl hhl hGadd hHTadd hHPadd hA hB
+  exact inverseBlockwise_resolvent_of_agree n eta lam x m divInv tpInv gop hopNeg gop hopNeg'
+    (fun _ _ => rfl)
+    (fun d hdl => hopNeg_sparse_eq_dense ds T al kappa nz hnz hds d (by omega))
+    hd ht hgl hhl hGadd hHTadd hHPadd hA hB
+
+end sparseResolvent
+
+/-! ## T3.6 two-sided inverse, linearity, time reversal -/
+
+section further
+
+theorem stack_injective (a b : Col K) (hd : a.d.length = b.d.length)
+    (hta : a.t.length = a.d.length) (htb : b.t.length = b.d.length) (hab : stack a = stack b) :
+    a = b := by
+  rw [← unstack_stack a hta, ← unstack_stack b htb, hab, hd]
+
+/-- **Right-inverse direction**: if `minv` is a right inverse of the implicit matrix (as an action
+ on vectors), then `(1 - η·L)(implicit_inverse(y)) = y` for every column state `y`, every `n`. -/
+theorem primitive_rightInverse (hs : Shaped n ds T g h x) (minv : List (List K))
+    (hm : minv.length = 2 * n + 1)
+    (hinv : ∀ v : List K, v.length = 2 * n + 1 →
+      matvec (implicitMatrix eta lam R ds T g h) (matvec minv v) = v) :
+    oneMinus eta (implicitTerms lam R ds T (matvec g) (tempImplicitDense h)) (inverseStacked minv x)
+      = x := by
+  have hsl : (stack x).length = 2 * n + 1 := by rw [stack_length, hs.ld, hs.lt]; omega
+  have hml : (matvec minv (stack x)).length = 2 * n + 1 := by simp [hm]
+  have hz : Shaped n ds T g h (inverseStacked minv x) :=
+    ⟨hs.lds, hs.lT, hs.lg, hs.lh, hs.grow, hs.hrow,
+      by simp [inverseStacked, unstack, hs.ld, hm]; omega,
+      by simp [inverseStacked, unstack, hs.ld, hm]; omega⟩
+  have h1 := implicitMatrix_mul_eq_oneMinus n eta lam R ds T g h _ hz
+  have h2 : stack (inverseStacked minv x) = matvec minv (stack x) := by
+    unfold inverseStacked; rw [hs.ld]; exact stack_unstack n _ hml
+  rw [h2, hinv _ hsl] at h1
+  apply stack_injective _ _ _ _ _ h1.symm
+  · simp [oneMinus, implicitTerms, subv, smul, addv, matvec, hz.ld, hs.lg, hs.lT, hs.ld]
+  · simp [oneMinus, implicitTerms, subv, smul, addv, matvec, tempImplicitDense, negMat, hz.ld,
+      hz.lt, hs.lg, hs.lT, hs.lh]
+  · rw [hs.lt, hs.ld]
+
+/-- with a two-sided matrix inverse the solve is the two-sided inverse of `1 - η·L` -/
+theorem primitive_twoSided (hs : Shaped n ds T g h x) (minv : List (List K))
+    (hm : minv.length = 2 * n + 1) (hrow : ∀ r ∈ minv, r.length = 2 * n + 1)
+    (hl : ∀ v : List K, v.length = 2 * n + 1 →
+      matvec minv (matvec (implicitMatrix eta lam R ds T g h) v) = v)
+    (hr : ∀ v : List K, v.length = 2 * n + 1 →
+      matvec (implicitMatrix eta lam R ds T g h) (matvec minv v) = v) :
+    inverseStacked minv (oneMinus eta (implicitTerms lam R ds T (matvec g) (tempImplicitDense h)) x) = x
+    ∧ oneMinus eta (implicitTerms lam R ds T (matvec g) (tempImplicitDense h)) (inverseStacked minv x) = x
+    ∧ oneMinus eta (implicitTerms lam R ds T (matvec g) (tempImplicitDense h)) (inverseSplit minv x) = x := by
+  refine ⟨(primitive_resolvent n eta lam R ds T g h x hs minv hm hrow hl).1,
+    primitive_rightInverse n eta lam R ds T g h x hs minv hm hr, ?_⟩
+  rw [inverseSplit_eq_inverseStacked n x minv (by rw [hs.lt, hs.ld]) hs.ld hm hrow]
+  exact primitive_rightInverse n eta lam R ds T g h x hs minv hm hr
+
+/-! ### linearity of `implicit_terms` -/
+
+/-- `tree_map(+)` and `tree_map(c * ·)` on column states -/
+def addCol (x y : Col K) : Col K := ⟨addv x.d y.d, addv x.t y.t, x.p + y.p⟩
+def smulCol (c : K) (x : Col K) : Col K := ⟨smul c x.d, smul c x.t, c * x.p⟩
+def negCol (x : Col K) : Col K := ⟨x.d.map (fun v => -v), x.t.map (fun v => -v), -x.p⟩
+
+omit n eta lam R ds T g h x in
+theorem matvec_addv (a : List (List K)) (u v : List K) (huv : u.length = v.length) :
+    matvec a (addv u v) = addv (matvec a u) (matvec a v) := by
+  simp only [matvec_eq_map_dot, addv, List.zipWith_map_left, List.zipWith_map_right,
+    List.zipWith_self]
+  apply List.map_congr_left
+  intro r _
+  exact dot_add_right r u v huv
+
+omit n eta lam R ds T g h x in
+theorem matvec_smul (a : List (List K)) (c : K) (u : List K) :
+    matvec a (smul c u) = smul c (matvec a u) := by
+  simp only [matvec_eq_map_dot, smul, List.map_map, Function.comp_def]
+  apply List.map_congr_left
+  intro r _
+  exact dot_smul_right c r u
+
+omit n eta x in
+/-- `implicit_terms` is additive (any shapes of `G`, `H`, `T_ref`; the two states of equal shape) -/
+theorem implicitTerms_add (x y : Col K) (hd : x.d.length = y.d.length)
+    (ht : x.t.length = y.t.length) :
+    implicitTerms lam R ds T (matvec g) (tempImplicitDense h) (addCol x y)
+      = addCol (implicitTerms lam R ds T (matvec g) (tempImplicitDense h) x)
+          (implicitTerms lam R ds T (matvec g) (tempImplicitDense h) y) := by
+  simp only [implicitTerms, addCol, tempImplicitDense, Col.mk.injEq]
+  refine ⟨?_, matvec_addv _ _ _ hd, ?_⟩
+  · rw [matvec_addv _ _ _ ht]
+    apply List.ext_getElem
+    · simp [addv]
+    · intro i h1 h2
+      simp only [addv, List.getElem_map, List.getElem_zipWith]
+      ring
+  · have := dot_add_right ds x.d y.d hd
+    simp only [dot, addv] at this ⊢
+    rw [this]; ring
+
+omit n eta x in
+/-- `implicit_terms` is homogeneous -/
+theorem implicitTerms_smul (c : K) (x : Col K) :
+    implicitTerms lam R ds T (matvec g) (tempImplicitDense h) (smulCol c x)
+      = smulCol c (implicitTerms lam R ds T (matvec g) (tempImplicitDense h) x) := by
+  simp only [implicitTerms, smulCol, tempImplicitDense, Col.mk.injEq]
+  refine ⟨?_, matvec_smul _ _ _, ?_⟩
+  · rw [matvec_smul]
+    apply List.ext_getElem
+    · simp [addv, smul]
+    · intro i h1 h2
+      simp only [addv, smul, List.getElem_map, List.getElem_zipWith]
+      ring
+  · have := dot_smul_right c ds x.d
+    simp only [dot, smul] at this ⊢
+    rw [this]; ring
+
+/-! ### time reversal -/
+
+omit n lam R ds T g h in
+/-- `x - η·(-(L x)) = x - (-η)·L x`, for any right-hand side -/
+theorem oneMinus_negCol (f : Col K → Col K) :
+    oneMinus eta (fun z => negCol (f z)) x = oneMinus (-eta) f x := by
+  simp only [oneMinus, negCol, smul, List.map_map, Function.comp_def, mul_neg, neg_mul]
+
+instance : Neg (Col K) := ⟨negCol⟩
+
+omit n lam R ds T g h in
+/-- **`TimeReversedImExODE` is the resolvent of `−L` at `η`**: if the forward solve at step `−η`
+ inverts `1 − (−η)·L` on `x`, then the time-reversed equation's solve at step `η` inverts
+ `1 − η·(−L)` on `x` (`Imex.timeReversed` is the model of the class, shared with C06). -/
+theorem timeReversed_resolvent (e : Imex.ImEx K (Col K))
+    (hres : e.Ginv (oneMinus (-eta) e.G x) (-eta) = x) :
+    (Imex.timeReversed e).Ginv (oneMinus eta (Imex.timeReversed e).G x) eta = x := by
+  have : oneMinus eta (Imex.timeReversed e).G x = oneMinus (-eta) e.G x :=
+    oneMinus_negCol eta x e.G
+  rw [this]
+  exact hres
+
+/-- the primitive-equation instance: the solve built from a left inverse of the implicit matrix at
+ `−η` inverts `x ↦ x − η·(−implicit_terms x)` -/
+theorem primitive_timeReversed_resolvent (hs : Shaped n ds T g h x) (minv : List (List K))
+    (hm : minv.length = 2 * n + 1) (hrow : ∀ r ∈ minv, r.length = 2 * n + 1)
+    (hinv : ∀ v : List K, v.length = 2 * n + 1 →
+      matvec minv (matvec (implicitMatrix (-eta) lam R ds T g h) v) = v) :
+    let y := oneMinus eta
+      (fun z => negCol (implicitTerms lam R ds T (matvec g) (tempImplicitDense h) z)) x
+    inverseStacked minv y = x ∧ inverseSplit minv y = x := by
+  intro y
+  have hy : y = oneMinus (-eta) (implicitTerms lam R ds T (matvec g) (tempImplicitDense h)) x :=
+    oneMinus_negCol eta x _
+  rw [hy]
+  exact primitive_resolvent n (-eta) lam R ds T g h x hs minv hm hrow hinv
+
+omit n R ds T g h x in
+/-- shallow water: the Schur solve at `−η` inverts `x ↦ x − η·(−L x)` -/
+theorem swInverse_timeReversed (phi d p : K) (hne : 1 - eta * eta * phi * lam ≠ 0) :
+    swInverse (-eta) lam phi (d - eta * -(swImplicit lam phi d p).1)
+      (p - eta * -(swImplicit lam phi d p).2) = (d, p) := by
+  have h1 := swInverse_oneMinus (-eta) lam phi d p (by simpa using hne)
+  simp only [swOneMinus, swImplicit] at h1 ⊢
+  convert h1 using 2 <;> ring
+
+end further
+
 /-! ## non-vacuity -/
 
 /-- `Shaped` is inhabited by an uneven two-layer column -/
@@ -315,5 +787,172 @@ example : ∀ v : List ℚ, v.length = 2 * 1 + 1 →
   | [a, b, c], _ =>
     simp [matvec, mulv, implicitMatrix, eyeRow, zeros, List.range_succ]
     refine ⟨?_, ?_, ?_⟩ <;> ring
+
+/-! ### non-vacuity of the general-`n` cumulative-sum theorems -/
+
+section nonvacuity2
+
+theorem wNz_spec : ∀ v : ℚ, wNz v = true ↔ v ≠ 0 := by intro v; simp [wNz]
+
+/-- `tempImplicitSparse_eq_dense` on the uneven 3-layer column; the common value is not zero -/
+example : tempImplicitSparse wNz wDs (hMatrix wDs wT wAl (2 / 7)) [1, 2, 3]
+    = tempImplicitDense (hMatrix wDs wT wAl (2 / 7)) [1, 2, 3] :=
+  tempImplicitSparse_eq_dense wDs wT wAl (2 / 7) wNz wNz_spec [1, 2, 3] rfl (by decide +kernel)
+
+example : tempImplicitDense (hMatrix wDs wT wAl (2 / 7)) [1, 2, 3] ≠ [0, 0, 0] := by decide +kernel
+
+/-- one layer: the guard `down.any (· ≠ 0)` is false and the theorem still applies -/
+example : tempImplicitSparse wNz [1] (hMatrix [1] [2] [1] (3 / 2)) [5] = [-15] ∧
+    tempImplicitDense (hMatrix ([1] : List ℚ) [2] [1] (3 / 2)) [5] = [-15] := by decide +kernel
+
+/-- the hypothesis "no zero thickness" cannot be dropped: with a zero-thickness top layer the
+ cumulative-sum form loses the sub-diagonal weight (`0/0 = 0`) and differs from the dense product -/
+theorem sparse_ne_dense_zero_thickness :
+    tempImplicitSparse wNz [0, 1 / 2, 1 / 2] (hMatrix [0, 1 / 2, 1 / 2] wT wAl (2 / 7)) [1, 2, 3]
+      ≠ tempImplicitDense (hMatrix [0, 1 / 2, 1 / 2] wT wAl (2 / 7)) [1, 2, 3] := by
+  decide +kernel
+
+/-- `sparseOld_eq_dense_of_equidistant` on three equal layers -/
+example : tempImplicitSparseOld wNz (hMatrix [1 / 3, 1 / 3, 1 / 3] wT wAl (2 / 7)) [1, 2, 3]
+    = tempImplicitDense (hMatrix [1 / 3, 1 / 3, 1 / 3] wT wAl (2 / 7)) [1, 2, 3] :=
+  sparseOld_eq_dense_of_equidistant _ wT wAl (2 / 7) wNz wNz_spec (1 / 3) (by decide +kernel)
+    [1, 2, 3] rfl
+
+/-- the agreement hypothesis of `inverseBlockwise_resolvent_of_agree` for the cumulative-sum `h·d` -/
+example : ∀ d : List ℚ, d.length = 3 →
+    (tempImplicitSparse wNz wDs (hMatrix wDs wT wAl (2 / 7)) d).map (fun a => -a)
+      = (tempImplicitDense (hMatrix wDs wT wAl (2 / 7)) d).map (fun a => -a) :=
+  fun d hd => hopNeg_sparse_eq_dense wDs wT wAl (2 / 7) wNz wNz_spec (by decide +kernel) d hd
+
+/-- an uneven two-layer column: `log σ`-centres `[-2, -1]`, `Δσ = [1/4, 3/4]`, `T_ref = [2, 3]`,
+ `R = 1`, `κ = 1/2`, `η = 1`, `λ = -1`; the exact inverse of its 5×5 implicit matrix -/
+def xLc : List ℚ := [-2, -1]
+def xDs : List ℚ := [1 / 4, 3 / 4]
+def xT : List ℚ := [2, 3]
+def xInv : List (List ℚ) :=
+  [[632 / 887, -528 / 887, 316 / 887, 420 / 887, -320 / 887],
+   [-168 / 887, 320 / 887, -84 / 887, 68 / 887, 624 / 887],
+   [-166 / 887, 105 / 887, 804 / 887, -144 / 887, -17 / 887],
+   [-72 / 887, -243 / 887, -36 / 887, 536 / 887, -873 / 887],
+   [-32 / 887, -108 / 887, -16 / 887, -156 / 887, 499 / 887]]
+
+theorem xM_eq : implicitMatrix (1 : ℚ) (-1) 1 xDs xT (geopotentialWeights 1 (sigmaRatios xLc))
+      (hMatrix xDs xT (sigmaRatios xLc) (1 / 2))
+    = [[1, 0, -1 / 2, -3 / 2, -2], [0, 1, 0, -1, -3], [5 / 16, 3 / 16, 1, 0, 0],
+       [9 / 16, 27 / 16, 0, 1, 0], [1 / 4, 3 / 4, 0, 0, 1]] := by decide +kernel
+
+/-- the left-inverse hypothesis of `primitive_resolvent_sparse` holds for it … -/
+theorem xInv_left : ∀ v : List ℚ, v.length = 2 * 2 + 1 →
+    matvec xInv (matvec (implicitMatrix (1 : ℚ) (-1) 1 xDs xT
+      (geopotentialWeights 1 (sigmaRatios xLc)) (hMatrix xDs xT (sigmaRatios xLc) (1 / 2))) v) = v := by
+  intro v hv
+  rw [xM_eq]
+  match v, hv with
+  | [a, b, c, d, e], _ =>
+    simp only [xInv, matvec, mulv, List.map_cons, List.map_nil, List.zipWith_cons_cons,
+      List.zipWith_nil_right, List.sum_cons, List.sum_nil, List.cons.injEq, and_true]
+    refine ⟨?_, ?_, ?_, ?_, ?_⟩ <;> ring
+
+/-- … and so does the right-inverse hypothesis of `primitive_rightInverse` -/
+theorem xInv_right : ∀ v : List ℚ, v.length = 2 * 2 + 1 →
+    matvec (implicitMatrix (1 : ℚ) (-1) 1 xDs xT
+      (geopotentialWeights 1 (sigmaRatios xLc)) (hMatrix xDs xT (sigmaRatios xLc) (1 / 2)))
+      (matvec xInv v) = v := by
+  intro v hv
+  rw [xM_eq]
+  match v, hv with
+  | [a, b, c, d, e], _ =>
+    simp only [xInv, matvec, mulv, List.map_cons, List.map_nil, List.zipWith_cons_cons,
+      List.zipWith_nil_right, List.sum_cons, List.sum_nil, List.cons.injEq, and_true]
+    refine ⟨?_, ?_, ?_, ?_, ?_⟩ <;> ring
+
+/-- `primitive_resolvent_sparse` instantiated: every two-layer state of that column is recovered
+ from `x - η·implicit_terms(x)` computed with both cumulative-sum operators -/
+example (d0 d1 t0 t1 p : ℚ) :
+    let y := oneMinus 1 (implicitTerms (-1) 1 xDs xT (geopotentialDiffSparse 1 (sigmaRatios xLc))
+      (tempImplicitSparse wNz xDs (hMatrix xDs xT (sigmaRatios xLc) (1 / 2)))) ⟨[d0, d1], [t0, t1], p⟩
+    inverseStacked xInv y = ⟨[d0, d1], [t0, t1], p⟩ ∧ inverseSplit xInv y = ⟨[d0, d1], [t0, t1], p⟩ :=
+  have : NeZero ((1 : ℚ) + 1) := ⟨by norm_num⟩
+  primitive_resolvent_sparse 2 1 (-1) 1 xDs xT ⟨[d0, d1], [t0, t1], p⟩ xLc (1 / 2) wNz wNz_spec
+    rfl rfl rfl rfl rfl (by decide +kernel) xInv rfl (by decide +kernel) xInv_left
+
+theorem xShaped (x : Col ℚ) (hd : x.d.length = 2) (ht : x.t.length = 2) :
+    Shaped 2 xDs xT (geopotentialWeights 1 (sigmaRatios xLc))
+      (hMatrix xDs xT (sigmaRatios xLc) (1 / 2)) x :=
+  ⟨rfl, rfl, rfl, rfl, by decide +kernel, by decide +kernel, hd, ht⟩
+
+/-- `primitive_twoSided` instantiated -/
+example (d0 d1 t0 t1 p : ℚ) :
+    oneMinus 1 (implicitTerms (-1) 1 xDs xT (matvec (geopotentialWeights 1 (sigmaRatios xLc)))
+        (tempImplicitDense (hMatrix xDs xT (sigmaRatios xLc) (1 / 2))))
+      (inverseStacked xInv ⟨[d0, d1], [t0, t1], p⟩) = ⟨[d0, d1], [t0, t1], p⟩ :=
+  primitive_rightInverse 2 1 (-1) 1 xDs xT _ _ _ (xShaped _ rfl rfl) xInv rfl xInv_right
+
+/-- `timeReversed_resolvent` instantiated: the forward equation's solve at step `1` serves the
+ time-reversed equation at step `-1` -/
+example (d0 d1 t0 t1 p : ℚ) :
+    let e : Imex.ImEx ℚ (Col ℚ) :=
+      ⟨id, implicitTerms (-1) 1 xDs xT (matvec (geopotentialWeights 1 (sigmaRatios xLc)))
+        (tempImplicitDense (hMatrix xDs xT (sigmaRatios xLc) (1 / 2))),
+       fun y _ => inverseStacked xInv y⟩
+    (Imex.timeReversed e).Ginv (oneMinus (-1) (Imex.timeReversed e).G ⟨[d0, d1], [t0, t1], p⟩) (-1)
+      = ⟨[d0, d1], [t0, t1], p⟩ := by
+  intro e
+  apply timeReversed_resolvent
+  have := (primitive_resolvent 2 1 (-1) 1 xDs xT _ _ ⟨[d0, d1], [t0, t1], p⟩ (xShaped _ rfl rfl) xInv
+    rfl (by decide +kernel) xInv_left).1
+  simpa [e] using this
+
+/-- linearity is about non-trivial operators: the implicit terms of that column do not vanish -/
+example : (implicitTerms (-1 : ℚ) 1 xDs xT (matvec (geopotentialWeights 1 (sigmaRatios xLc)))
+    (tempImplicitDense (hMatrix xDs xT (sigmaRatios xLc) (1 / 2))) ⟨[1, 2], [3, 4], 5⟩).t ≠ [0, 0] := by
+  decide +kernel
+
+
+theorem yH : hMatrix ([1] : List ℚ) [2] [1] (3 / 2) = [[3]] := by decide +kernel
+theorem yM : implicitMatrix (1 : ℚ) (-2) 1 [1] [2] [[1]] [[3]] = [[1, -2, -4], [3, 1, 0], [1, 0, 1]] := by
+  decide +kernel
+
+theorem len1 (l : List ℚ) (h : l.length = 1) : ∃ a, l = [a] := by
+  match l, h with
+  | [a], _ => exact ⟨a, rfl⟩
+
+/-- `inverseBlockwise_resolvent_sparseH` instantiated: all seven hypotheses hold for the one-layer
+ column `Δσ = [1]`, `T_ref = [2]`, `α = [1]`, `κ = 3/2`, `η = 1`, `λ = -2`, with the exact inverses
+ `(I - G̃H̃)⁻¹ = [1/11]`, `(I - H̃G̃)⁻¹ = [[5,-12],[-2,7]]/11` -/
+example (a b c : ℚ) :
+    let m := implicitMatrix (1 : ℚ) (-2) 1 [1] [2] [[1]] (hMatrix [1] [2] [1] (3 / 2))
+    let hopNeg := fun v => (tempImplicitDense (hMatrix ([1] : List ℚ) [2] [1] (3 / 2)) v).map (fun a => -a)
+    inverseBlockwise 1 (-2) m [[1 / 11]] [[5 / 11, -12 / 11], [-2 / 11, 7 / 11]] (matvec [[1]])
+      (fun v => (tempImplicitSparse wNz [1] (hMatrix [1] [2] [1] (3 / 2)) v).map (fun a => -a))
+      ⟨addv [a] (gAct 1 (-2) m (matvec [[1]]) 1 [b] c), addv [b] (hActT 1 hopNeg [a]), c + hActP m 1 [a]⟩
+      = ⟨[a], [b], c⟩ := by
+  intro m hopNeg
+  refine inverseBlockwise_resolvent_sparseH 1 1 (-2) [1] [2] ⟨[a], [b], c⟩ [1] (3 / 2) wNz wNz_spec rfl
+    (by decide +kernel) m [[1 / 11]] [[5 / 11, -12 / 11], [-2 / 11, 7 / 11]] (matvec [[1]]) rfl rfl
+    ?_ ?_ ?_ ?_ ?_ ?_ ?_ <;> simp only [m, yH, yM]
+  · intro t p; simp [gAct, addv, matvec, block]
+  · intro d; simp [hActT, smul, tempImplicitDense, matvec, negMat]
+  · intro t1 t2 p1 p2 h1 h2
+    obtain ⟨u, rfl⟩ := len1 t1 h1
+    obtain ⟨v, rfl⟩ := len1 t2 h2
+    simp [gAct, addv, matvec, block, mulv]; ring
+  · intro d1 d2 h1 h2
+    obtain ⟨u, rfl⟩ := len1 d1 h1
+    obtain ⟨v, rfl⟩ := len1 d2 h2
+    simp [hActT, smul, tempImplicitDense, matvec, negMat, addv, mulv]; ring
+  · intro d1 d2 h1 h2
+    obtain ⟨u, rfl⟩ := len1 d1 h1
+    obtain ⟨v, rfl⟩ := len1 d2 h2
+    simp [hActP, addv, matvec, block, mulv]
+  · intro d h1
+    obtain ⟨u, rfl⟩ := len1 d h1
+    simp [gAct, hActT, hActP, smul, tempImplicitDense, negMat, addv, subv, matvec, block, mulv]; ring
+  · intro t p h1
+    obtain ⟨u, rfl⟩ := len1 t h1
+    simp [tpApply, gAct, hActT, hActP, smul, tempImplicitDense, negMat, addv, subv, matvec, block, mulv]
+    constructor <;> ring
+
+end nonvacuity2
 
 end Dino.C03
